@@ -27,12 +27,31 @@
 //! frame arrives unchanged, is echoed, and both sides then observe
 //! `ConnectionClosed` (not a reset/protocol error); both tasks terminate.
 //!
+//! Not judged: tungstenite's handshake "attack check" deliberately rejects an
+//! upgrade header that arrives in more than 64 reads averaging under 128 B;
+//! plain-ws cases therefore forward the header in chunks of `hs_chunk` bytes
+//! (512/64/16/8, sometimes 0 = hostile from the first byte) and an
+//! `AttackAttempt` with `hs_chunk < 128` is only counted.
+//!
+//! Replay-only switches: `control_raw` runs the duplex data phase on a bare
+//! `async_tungstenite::WebSocketStream` over the same transport (attribution
+//! of a hang to the compio-ws wrapper); `relay.selftest_blackhole` makes the
+//! relay swallow bytes (self-test of the hang detector). `C15W_VERBOSE=1`
+//! prints one line per case.
+//!
+//! Signatures. `eval`: (layer, driver, link, relay class, socket buffers,
+//! duplex mode, size class[kinds], closer). Violations:
+//! `C15/ws/<rule>/<layer>/<role>/<phase>/<driver>/relay=<class>`; the symmetric
+//! `hang-mutual-backpressure` only carries layer and duplex mode.
+//!
 //! Hangs are decided by **logical quiescence**, never by time: when nothing
 //! moved for a while the supervisor asks the relay (probe/ack) whether it is
-//! idle (buffers empty, nothing readable on its sockets), checks the kernel
-//! queues of the peers' sockets, then runs further runtime iterations; if the
-//! picture is unchanged, a task that is still pending can never finish: a
-//! hang = violation. The per-case watchdog only yields `inconclusive`.
+//! *stalled* (per direction: nothing to forward or the destination socket not
+//! writable; nothing readable or its buffer full; no EOF to forward; no pause
+//! running), checks the kernel queues of the peers' sockets (TCP: nothing
+//! sent-but-unacknowledged), then runs 150 further runtime iterations; if
+//! the picture is unchanged, only the peers could change it and they do not:
+//! a task that is still pending can never finish: a hang = violation. The per-case watchdog only yields `inconclusive`.
 
 use std::{
     cell::RefCell,
@@ -128,6 +147,11 @@ struct Case {
     /// 0 default, 1 write_buffer_size = 0, 2 large write buffer.
     wscfg: u8,
     seed: u64,
+    /// Control experiment (replay JSON only): run the duplex data phase on a
+    /// bare `async_tungstenite::WebSocketStream` over the same transport,
+    /// i.e. without compio-ws' wrapper, then stop. Used to attribute a
+    /// full-duplex hang to the wrapper.
+    control_raw: bool,
 }
 
 fn kind_name(k: Kind) -> &'static str {
@@ -163,7 +187,7 @@ impl Case {
                       "steps": [steps(&self.relay.steps[0]), steps(&self.relay.steps[1])]},
             "msgs": [msgs(&self.msgs[0]), msgs(&self.msgs[1])],
             "duplex": self.duplex, "flush_each": self.flush_each, "closer": self.closer,
-            "wscfg": self.wscfg, "seed": self.seed,
+            "wscfg": self.wscfg, "seed": self.seed, "control_raw": self.control_raw,
         })
     }
 
@@ -217,6 +241,7 @@ impl Case {
             closer: v["closer"].as_u64().unwrap_or(0) as usize,
             wscfg: v["wscfg"].as_u64().unwrap_or(0) as u8,
             seed: v["seed"].as_u64().unwrap_or(0),
+            control_raw: v["control_raw"].as_bool().unwrap_or(false),
         }
     }
 
@@ -847,6 +872,39 @@ async fn peer(role: usize, sock: Socket, case: Rc<Case>, log: Shared) -> Result<
             Err(e) => return Err(("tls-handshake-error".into(), format!("{e}"))),
         }
     };
+    if case.control_raw {
+        // control: same transport, same workload, no compio-ws wrapper
+        phase(&log, role, "control-handshake");
+        let raw = if role == 0 {
+            async_tungstenite::client_async_with_config("ws://localhost/c15", stream, None)
+                .await
+                .map(|x| x.0)
+        } else {
+            async_tungstenite::accept_async_with_config(stream, None).await
+        };
+        let raw = raw.map_err(|e| ("harness".to_string(), format!("control handshake: {e}")))?;
+        phase(&log, role, "control-duplex");
+        let (mut tx, mut rx) = raw.split();
+        let w = send_all(&mut tx, None, &case, role, &log);
+        let r = recv_all(&mut rx, &case, role, &log);
+        let (wr, rr) = futures_util::future::join(w, r).await;
+        wr?;
+        rr?;
+        // keep the socket open until the peer has everything, then leave
+        phase(&log, role, "control-done");
+        log.borrow_mut().sides[role].close_seen = true;
+        let mut l = log.borrow_mut();
+        l.sides[role].fd_released = true;
+        drop(l);
+        // wait for the peer's EOF so that unread data is not reset away
+        if role == 0 {
+            drop(tx);
+            drop(rx);
+        } else {
+            while let Some(Ok(_)) = rx.next().await {}
+        }
+        return Ok(());
+    }
     phase(&log, role, "ws-handshake");
     let mut ws: Ws = if role == 0 {
         match client_async_with_config("ws://localhost/c15", stream, ws_config(&case)).await {
@@ -1059,7 +1117,7 @@ fn run_case(case: &Case, watchdog: Duration) -> Outcome {
             if done || failed {
                 break;
             }
-            rt.poll_with(Some(Duration::from_millis(std::env::var("C15W_POLL_MS").ok().and_then(|v| v.parse().ok()).unwrap_or(2))));
+            rt.poll_with(Some(Duration::from_millis(2)));
             let now_mark = mark(&log);
             if now_mark != last {
                 last = now_mark;
@@ -1336,6 +1394,22 @@ fn msg_list(rng: &mut Rng, class: &str, thorough: bool) -> Vec<MsgSpec> {
     out
 }
 
+/// Rough wall-time estimate (ms) of moving the payload through the relay:
+/// per direction bytes x (recv cost / read chunk + (send cost + pause) / write
+/// chunk). Only used to keep generated cases affordable.
+fn estimate_ms(relay: &RelayScript, msgs: &[Vec<MsgSpec>; 2]) -> f64 {
+    let mut us = 0.0f64;
+    for d in 0..2 {
+        let bytes: usize = msgs[d].iter().map(|m| m.len + 16).sum::<usize>() + 1500;
+        let st = &relay.steps[d];
+        let n = st.len() as f64;
+        let per_byte_rd: f64 = st.iter().map(|s| 25.0 / (s.rd.min(relay.cap).max(1) as f64)).sum::<f64>() / n;
+        let per_byte_wr: f64 = st.iter().map(|s| (40.0 + 2.0 * s.pause_us as f64) / (s.wr.min(relay.cap).max(1) as f64)).sum::<f64>() / n;
+        us += bytes as f64 * (per_byte_rd + per_byte_wr);
+    }
+    us / 1000.0
+}
+
 fn gen_case(rng: &mut Rng, thorough: bool, idx: usize) -> Case {
     // walk the (driver, tls, link) grid systematically, the rest is seeded
     let driver = ["iouring", "poll"][idx % 2];
@@ -1351,6 +1425,26 @@ fn gen_case(rng: &mut Rng, thorough: bool, idx: usize) -> Case {
     } else {
         0
     };
+    let mut msgs = [msg_list(rng, class, thorough), msg_list(rng, class, thorough)];
+    // keep the case affordable: shrink the biggest message until the estimate fits
+    let limit = if thorough { 5000.0 } else { 1200.0 };
+    for _ in 0..64 {
+        if estimate_ms(&relay, &msgs) <= limit {
+            break;
+        }
+        let (d, i) = (0..2)
+            .flat_map(|d| (0..msgs[d].len()).map(move |i| (d, i)))
+            .max_by_key(|(d, i)| msgs[*d][*i].len)
+            .unwrap_or((0, 0));
+        if msgs[d].is_empty() || msgs[d][i].len <= 1 {
+            // nothing left to shrink: drop the pauses instead
+            for st in relay.steps.iter_mut().flatten() {
+                st.pause_us = 0;
+            }
+            break;
+        }
+        msgs[d][i].len /= 2;
+    }
     Case {
         family: "seeded".into(),
         driver: driver.into(),
@@ -1360,12 +1454,13 @@ fn gen_case(rng: &mut Rng, thorough: bool, idx: usize) -> Case {
         // (persist timer, hundreds of ms per stall): wall time, no new behaviour
         sockbuf: if link == "tcp" { *rng.pick(&[0usize, 16384]) } else { *rng.pick(&[0usize, 1, 1, 8192]) },
         relay,
-        msgs: [msg_list(rng, class, thorough), msg_list(rng, class, thorough)],
+        msgs,
         duplex: rng.chance(1, 3),
         flush_each: rng.chance(2, 3),
         closer: rng.below(2),
         wscfg: *rng.pick(&[0u8, 0, 1, 2]),
         seed: rng.next_u64(),
+        control_raw: false,
     }
 }
 
